@@ -99,7 +99,11 @@ def main(tier, replay=None):
     nexec = 16 if quick else 200
     nops = (lambda: rng.choice([80, 250])) if quick else (lambda: rng.choice([300, 1500]))
     for kind in ("Table", "Tree"):
-        keys = sorted({c + 55 * rng.randrange(0, 40) for c in (0, 4) for _ in range(12)})[:16]
+        # collision classes: homes 0 and 4 modulo 5 and 11, plus keys whose home is the FIRST slot (multiples of 5*11*23*53) and
+        # the LAST slot (one less) of every small table size: clusters that wrap around the end of the slot array
+        M = 5 * 11 * 23 * 53
+        keys = sorted({c + 55 * rng.randrange(0, 40) for c in (0, 4) for _ in range(4)} |
+                      {M * rng.randrange(0, 30) for _ in range(5)} | {M - 1 + M * rng.randrange(0, 30) for _ in range(7)})[:16]
         cm.run(mapgen.header("Probe", "Probe", keys, [7, 8, 9]),
                [mapgen.random_history(rng, kind, len(keys), 3, nops(), init_pairs=rng.choice([0, 3])) for _ in range(nexec)],
                "random/" + kind)
